@@ -40,7 +40,7 @@ func VerifC01Reported() {
 	case 5: // a dense acyclic dependency graph: LAYERS layers of two services, each depending on both services of the next layer
 		layers := vrtParam("LAYERS", 14)
 		svcs := map[string]any{}
-		name := func(l, k int) string { return "s" + string(rune('a'+l)) + string(rune('0'+k)) }
+		name := func(l, k int) string { return "s" + string(rune('a'+l/10)) + string(rune('0'+l%10)) + string(rune('0'+k)) }
 		for l := 0; l < layers; l++ {
 			for k := 0; k < 2; k++ {
 				s := map[string]any{"image": "i"}
